@@ -56,6 +56,8 @@ impl<'a> GeneratorState<'a> {
             tmp_in_use: false,
             whitespaces_regex: Regex::new(r"\s+").unwrap(),
             deferred_plusplus: Vec::new(),
+            y_saved_before_condition: false,
+            deferred_before_condition: 0,
             current_bank: 0,
             functions_code: HashMap::new(),
             functions_call_tree: HashMap::new(),
